@@ -162,6 +162,10 @@ def check_node(node, st, fl):
             ot = 'any'
         if node['seed'] == 'l_fac9' and ot == 'list' and t != 'int':
             ot = 'any'
+        if node['seed'] == 'npf0':
+            # numpy scalars go on to type-agnostic operators only: fed to an operator that keeps a float in a typed array they
+            # would break the precondition "accumulators return values of the seed's type" (float + numpy.float64 is numpy.float64)
+            ot = 'npfloat'
         return St(ot, st.empty and not reduce and term is None, st.after_take, aliased=mutating and not reduce)
     if op == 'count':
         return St('int', st.empty and not node.get('reduce'), st.after_take)
@@ -443,7 +447,7 @@ class Gen(object):
         if op == 'take':
             if SCALE[0]:
                 return [{'op': 'take', 'n': r.choice([256, 257, 300])}]
-            return [{'op': 'take', 'n': r.choice([0, 1, 1, 2, 2, 3, 5, 50, 130, 257])}]
+            return [self.npn({'op': 'take', 'n': r.choice([0, 1, 1, 2, 2, 3, 5, 50, 130, 257])})]
         if op == 'to_array':
             return [{'op': 'to_array', 'tc': 'q' if t == 'int' else 'd'}]
         if op == 'distinct_until_changed' or op == 'distinct':
@@ -461,7 +465,7 @@ class Gen(object):
         if op == 'batch':
             if SCALE[0]:
                 return [{'op': 'batch', 'n': r.choice([100, 256, 257, 300])}]
-            return [{'op': 'batch', 'n': r.choice([1, 1, 2, 2, 3, 4, 7, 16, 64, 100])}]
+            return [self.npn({'op': 'batch', 'n': r.choice([1, 1, 2, 2, 3, 4, 7, 16, 64, 100])})]
         if op == 'progress':
             return [{'op': 'progress', 'threshold': r.choice([1, 2, 3, 100, 256]), 'mt': r.random() < 0.5}]
         if op == 'dist_update':
@@ -478,11 +482,17 @@ class Gen(object):
         if op == 'lag':
             if SCALE[0]:
                 return [{'op': 'lag', 'n': r.choice([128, 257, 300])}]
-            return [{'op': 'lag', 'n': r.choice([0, 1, 1, 2, 3, 9, 33, 128])}]
+            return [self.npn({'op': 'lag', 'n': r.choice([0, 1, 1, 2, 3, 9, 33, 128])})]
         if op in ('pad_start', 'pad_end'):
-            return [{'op': op, 'size': r.choice([0, 1, 2, 3, 3, 17] if not SCALE[0] else [3, 257, 300]), 'value': r.choice([None, None, 0, 77])}]
+            return [self.npn({'op': op, 'size': r.choice([0, 1, 2, 3, 3, 17] if not SCALE[0] else [3, 257, 300]), 'value': r.choice([None, None, 0, 77])})]
         if op == 'start_with':
-            return [{'op': 'start_with', 'padding': [r.randrange(100, 110) for _ in range(r.choice([0, 1, 2, 3]))]}]
+            node = {'op': 'start_with', 'padding': [r.randrange(100, 110) for _ in range(r.choice([0, 1, 2, 3]))]}
+            if r.random() < 0.3:
+                # the padding is any iterable: a tuple, a range, a deque
+                node['pkind'] = r.choice(['tuple', 'range', 'deque'])
+                if node['pkind'] == 'range' and node['padding']:
+                    node['padding'] = list(range(node['padding'][0], node['padding'][0] + len(node['padding'])))
+            return [node]
         if op == 'tee_map':
             if nest <= 0:
                 return []
@@ -503,6 +513,7 @@ class Gen(object):
                         hi = r.choice([17, 33, 64, 130])
                     node['window'] = r.randint(1, hi)
                     node['stride'] = r.choice([r.randint(1, hi), r.randint(1, min(hi, 6)), node['window']])
+                    self.npn(node)
                 ist = St(t, False, False)
             elif op == 'time_split':
                 node['active'] = r.choice([None, 3, 5, 8])
@@ -521,6 +532,11 @@ class Gen(object):
             node['inner'] = self.pipeline(ist, fl, nest - 1, r.choice([1, 1, 2, 2, 3]))
             return [node]
         return []
+
+    def npn(self, node):
+        if self.rng.random() < 0.08:
+            node['npn'] = True
+        return node
 
     def pipeline(self, st, fl, nest, length):
         nodes = []
@@ -626,6 +642,28 @@ def key_fn(name):
     return F.KEYS[name][0] if name is not None else None
 
 
+
+def _n(node, key):
+    """an integer parameter, as a numpy integer when the node asks for it (sizes computed with numpy)"""
+    if node.get('npn'):
+        import numpy as np
+        return np.int64(node[key])
+    return node[key]
+
+
+def _padding(node):
+    p = list(node['padding'])
+    kind = node.get('pkind', 'list')
+    if kind == 'tuple':
+        return tuple(p)
+    if kind == 'range':
+        return range(p[0], p[0] + len(p)) if p else range(0)
+    if kind == 'deque':
+        import collections
+        return collections.deque(p)
+    return p
+
+
 def build_node(node, ctx, mode, path, i):
     op = node['op']
     site = node.get('site')
@@ -675,7 +713,7 @@ def build_node(node, ctx, mode, path, i):
     if op == 'last':
         return rs.ops.last()
     if op == 'take':
-        return rs.ops.take(node['n'])
+        return rs.ops.take(_n(node, 'n'))
     if op == 'to_list':
         return rs.data.to_list()
     if op == 'to_array':
@@ -687,7 +725,7 @@ def build_node(node, ctx, mode, path, i):
     if op == 'fill_none':
         return rs.data.fill_none(node['value'])
     if op == 'batch':
-        return rs.data.batch(node['n'])
+        return rs.data.batch(_n(node, 'n'))
     if op == 'identity':
         return rs.ops.identity()
     if op == 'do_action':
@@ -742,13 +780,13 @@ def build_node(node, ctx, mode, path, i):
     if op == 'distinct':
         return rs.ops.distinct(key_fn(node.get('key')))
     if op == 'lag':
-        return rs.data.lag(node['n'])
+        return rs.data.lag(_n(node, 'n'))
     if op == 'pad_start':
-        return rs.data.pad_start(node['size'], node.get('value'))
+        return rs.data.pad_start(_n(node, 'size'), node.get('value'))
     if op == 'pad_end':
-        return rs.data.pad_end(node['size'], node.get('value'))
+        return rs.data.pad_end(_n(node, 'size'), node.get('value'))
     if op == 'start_with':
-        return rs.ops.start_with(list(node['padding']))
+        return rs.ops.start_with(_padding(node))
     inner = build(node['inner'], ctx, mode, '%s/%d:in' % (path, i))
     if op == 'group_by':
         if node['key'] == 'rr3':
@@ -760,7 +798,7 @@ def build_node(node, ctx, mode, path, i):
             return rs.ops.group_by(round_robin, inner)
         return rs.ops.group_by(key_fn(node['key']), inner)
     if op == 'roll':
-        return rs.data.roll(node['window'], node['stride'], inner)
+        return rs.data.roll(_n(node, 'window'), _n(node, 'stride'), inner)
     if op == 'split':
         return rs.data.split(key_fn(node['key']), inner)
     if op == 'time_split':
